@@ -389,6 +389,16 @@ impl<'a> ExpressionVisitor<'a> for CodeBuilder<'a> {
                         a.type_desc(),
                     ));
                 }
+                // Nor does the result of a function returning nothing.
+                if let Some(a) = arguments
+                    .iter()
+                    .find(|a| a.type_desc() == TypeDesc::VOID)
+                {
+                    return Err(ExpressionError::OperationOnUnsupportedType(
+                        "console.log".to_owned(),
+                        a.type_desc(),
+                    ));
+                }
                 Ok((TypeKind::VOID, arguments))
             }
             BuiltinFunctionKind::Max | BuiltinFunctionKind::Min => {
